@@ -330,11 +330,10 @@ func (m *Module) AssignGlobalIDs() error {
 	id := int64(0)
 	setName := func(n namedVar) error {
 		if n.IsUnnamed() {
-			if n.ID() != 0 && id != n.ID() {
-				want := id
-				got := n.ID()
-				return errors.Errorf("invalid global ID, expected %s, got %s", enc.GlobalID(want), enc.GlobalID(got))
-			}
+			// Note, IDs follow the order in which the module is printed (global
+			// variables, aliases, indirect functions, functions); an ID assigned
+			// earlier (by the parser in textual order, or by a previous call before
+			// the module was edited) is replaced.
 			n.SetID(id)
 			id++
 		}
